@@ -94,12 +94,14 @@ PROPS["C02"] = dict(
     post=compare_digests("outcome-depends-on-heap-fill"),
     title="Parse is total and memory-safe for every allocator kind",
     rule=("C01's unknown-validity corpus plus reuse histories (2-8 steps of Parse valid/invalid, mutation, move, Swap, "
-          "ParseOnDemand, Dump on one document) on pool / adaptive pool / malloc-free / ledger allocators; every run repeated "
+          "ParseOnDemand, Dump on one document) on pool / adaptive pool / malloc-free / ledger allocators, parses on a pool that lives in "
+          "a user-supplied exact-size buffer (aligned or misaligned); every run repeated "
           "under several ASan heap-fill bytes (0x06/0x07/0x0c are node type tags) so that acting on unconstructed memory "
           "changes behaviour; oracles: ASan+LSan, ledger, follow-up results vs reference; distinct = hash of input bytes"),
     runs=[dict(name="asan-fill-%02x" % b, src="parse_harness.cpp", cfg="asan-hsw", args=["--prop", "C02"], env=fill_env(b),
                tiers=("quick", "thorough") if b in FILLS_QUICK else ("thorough",)) for b in FILLS_ALL],
-    require=["c02:histories", "c02:followups-after-failed-parse", "c02:ledger-quiescent-checks", "rejected", "accepted"],
+    require=["c02:histories", "c02:followups-after-failed-parse", "c02:ledger-quiescent-checks", "rejected", "accepted",
+             "c02:parses-on-user-buffer-pool", "c02:user-buffer-misaligned"],
     assumptions=["ASan red zones / quarantine observe the executed accesses only; heap-fill sweep replaces definedness tracking"],
 )
 
